@@ -673,6 +673,7 @@ func (th *Thread) deepEqual(a, b Value, depth int) *Term {
 func init() {
 	lock := func(th *Thread, fn *ssa.Function, args []Value) Value {
 		s := th.syncState(nil, args[0])
+		th.opKeys = []interface{}{s}
 		th.yield(func() bool { return !s.locked && s.readers == 0 })
 		s.locked = true
 		return nil
@@ -684,12 +685,14 @@ func init() {
 		}
 		s.locked = false
 		// no scheduling point after a release: the next visible operation of this thread is one
+		th.touch(s)
 		return nil
 	}
 	intrinsics["(*sync.Mutex).Lock"] = lock
 	intrinsics["(*sync.Mutex).Unlock"] = unlock
 	intrinsics["(*sync.Mutex).TryLock"] = func(th *Thread, fn *ssa.Function, args []Value) Value {
 		s := th.syncState(nil, args[0])
+		th.opKeys = []interface{}{s}
 		th.yield(nil)
 		if s.locked || s.readers > 0 {
 			return th.ctx().False()
@@ -701,6 +704,7 @@ func init() {
 	intrinsics["(*sync.RWMutex).Unlock"] = unlock
 	intrinsics["(*sync.RWMutex).RLock"] = func(th *Thread, fn *ssa.Function, args []Value) Value {
 		s := th.syncState(nil, args[0])
+		th.opKeys = []interface{}{s}
 		th.yield(func() bool { return !s.locked })
 		s.readers++
 		return nil
@@ -711,11 +715,13 @@ func init() {
 			th.goPanic("sync: RUnlock of unlocked RWMutex")
 		}
 		s.readers--
+		th.touch(s)
 		return nil
 	}
 	intrinsics["(*sync.WaitGroup).Add"] = func(th *Thread, fn *ssa.Function, args []Value) Value {
 		s := th.syncState(nil, args[0])
 		d := th.argInt(args[1], "WaitGroup.Add delta")
+		th.touch(s)
 		s.count += d
 		if s.count < 0 {
 			th.goPanic("sync: negative WaitGroup counter")
@@ -724,6 +730,7 @@ func init() {
 	}
 	intrinsics["(*sync.WaitGroup).Done"] = func(th *Thread, fn *ssa.Function, args []Value) Value {
 		s := th.syncState(nil, args[0])
+		th.touch(s)
 		s.count--
 		if s.count < 0 {
 			th.goPanic("sync: negative WaitGroup counter")
@@ -732,17 +739,19 @@ func init() {
 	}
 	intrinsics["(*sync.WaitGroup).Wait"] = func(th *Thread, fn *ssa.Function, args []Value) Value {
 		s := th.syncState(nil, args[0])
+		th.opKeys = []interface{}{s}
 		th.yield(func() bool { return s.count == 0 })
 		return nil
 	}
 	intrinsics["(*sync.Once).Do"] = func(th *Thread, fn *ssa.Function, args []Value) Value {
 		s := th.syncState(nil, args[0])
+		th.opKeys = []interface{}{s}
 		th.yield(func() bool { return !s.running })
 		if s.done {
 			return nil
 		}
 		s.running = true
-		defer func() { s.running = false; s.done = true }()
+		defer func() { s.running = false; s.done = true; th.touch(s) }()
 		th.callFunction(args[1].(*FuncV), nil)
 		return nil
 	}
@@ -861,6 +870,7 @@ func init() {
 }
 
 func (th *Thread) atomicYield() {
+	th.touchGlobal()
 	if th.p.eng.cfg.Params["yield_at_atomics"] != 0 {
 		th.yield(nil)
 	}
